@@ -6,4 +6,7 @@ AmtsOdd == <<1, 3, -5, 7>>     \* odd amounts: with a unit of 1/8 every contribu
 \* element itself (path <<2>>) can be logged directly
 XNameA == <<2>>
 XBookA == (<<1>> :> 3) @@ (<<1, 1>> :> -2) @@ (<<1, 2>> :> 0) @@ (<<2, 1>> :> 3) @@ (<<1, 2, 1>> :> 1)
+XBookB == XBookA @@ (<<3>> :> 2) @@ (<<3, 1>> :> -1) @@ (<<2, 3>> :> 4)
+\* trace validation (random logs of up to 14 entries): entry i has quantity +-2^(i-1), every third one negative
+TraceAmts == [i \in 1..16 |-> IF i % 3 = 0 THEN -(2^(i - 1)) ELSE 2^(i - 1)]
 =============================================================================
